@@ -264,6 +264,9 @@ func (ent *entityNode) acceptEventOneof(visitor FileVisitor) error {
 	eventObjects := make([]*sourcedef_j5pb.NestedSchema, 0, len(entity.Events))
 
 	for idx, eventObjectSchema := range entity.Events {
+		if eventObjectSchema.Def == nil {
+			return walkerErrorf("event %d of entity %q has no definition", idx, entity.Name)
+		}
 
 		nestedName := eventObjectSchema.Def.Name
 
